@@ -273,6 +273,8 @@ def sc_schedule(name, seed, n, long_gaps=False):
             lines.append("TREM %d %d" % (rng.choice(keys), rng.choice([1, 2])))
         elif x < 0.985:
             lines.append("TADD %d %d 1" % (rng.choice(keys), rng.choice([1, 2])))
+            if rng.random() < 0.5:
+                lines.append("ENEW")
         else:
             lines.append("TCLEAR")
     lines.append("TICK")
@@ -284,6 +286,35 @@ def campaign_c12(seed, tier):
     scs = []
     for i in range(64 if tier == "quick" else 6000):
         scs.append(sc_schedule("c12-sched-%d" % i, rng.randrange(1 << 30), 250, long_gaps=(i % 3 == 0)))
+    # long silences (no tick, no frame) followed by table changes made without a tick in between
+    for gi, gap in enumerate([1000, 29000, 59000, 60000, 61000, 100000]):
+        for variant in ("complete", "remove", "clear", "keep"):
+            lines = ["NEW"]
+            f = discover(0, key_mac(1), gen=1, seq=1, stations=[key_mac(9)])
+            lines.append("GLUE %d 0 %s" % (len(f), f.hex()))
+            for _ in range(12):
+                lines += ["ADV 100", "TICK"]
+            lines.append("ADV %d" % gap)
+            if variant == "complete":
+                lines += ["TADD 1 1 1", "TCOMP 1 1"]
+            elif variant == "remove":
+                lines += ["TADD 1 1 1", "TREM 1 1"]
+            elif variant == "clear":
+                lines += ["TCLEAR"]
+            else:
+                lines += ["TADD 1 1 2"]
+            lines += ["TICK", "ADV 100", "TICK", "ADV 1000", "TICK", "ADV 1000", "TICK"]
+            scs.append(Scenario("c12-gap-%d-%s" % (gap, variant), lines))
+    # the same driven through the public API only (no frame: the mapping engine's inactivity timer never starts)
+    for gi, gap in enumerate([1000, 29000, 59000, 60000, 61000, 100000]):
+        for variant in ("complete", "keep", "remove"):
+            lines = ["NEW", "TADD 1 1 1", "ENEW"]
+            for _ in range(12):
+                lines += ["ADV 100", "TICK"]
+            lines.append("ADV %d" % gap)
+            lines += {"complete": ["TADD 1 1 1", "TCOMP 1 1"], "keep": ["TADD 1 1 2"], "remove": ["TADD 1 1 1", "TREM 1 1"]}[variant]
+            lines += ["TICK", "ADV 100", "TICK", "ADV 1000", "TICK", "ADV 31000", "TADD 1 1 3", "TICK", "ADV 1000", "TICK"]
+            scs.append(Scenario("c12-apigap-%d-%s" % (gap, variant), lines))
     # a session that is never acknowledged: periodic Hellos must flow (keeps the check non-vacuous)
     lines = ["NEW"]
     f = discover(0, key_mac(1), gen=1, seq=1, stations=[key_mac(9)])
